@@ -325,6 +325,11 @@ def faults_case(case, counters, viol, nontrivial):
                     # this sampler takes no random source: the run is not a replay of the reference run and may make fewer calls
                     counters["fault_index_beyond_unseeded_run"] += 1
                     continue
+                if res.exc is None and same_ctx:
+                    # the second run of a context starts from a proposal generator the first run has advanced: with an adaptive
+                    # schedule it is not a replay of the reference run and may make fewer calls than the fault index
+                    counters["fault_index_beyond_a_run_that_is_not_a_replay"] += 1
+                    continue
                 if res.exc is None:
                     viol.append({"mech": "C12/fault-not-reached", "detail": f"{where}: {kind} call {idx} of {total}"})
                     continue
